@@ -516,6 +516,11 @@ func (bf *buffer) waitForWriteSpace(n int) (int64, int, error) {
 		return 0, 0, io.EOF
 	}
 
+	// More than the ring can ever hold: the space would never become available.
+	if int64(n) > bf.size {
+		return 0, 0, bufio.ErrBufferFull
+	}
+
 	// The current producer position, remember it's a forever inreasing int64,
 	// NOT the position relative to the buffer
 	ppos := bf.pseq.get()
